@@ -442,23 +442,84 @@ def merge_small_dims(ctx):
   ev = evaluator(m, decide=Decider(extra=lambda c: False if (c.op == 'bool' and 'shape_to_merge' in show(c)) else None))
   r = ev.run(fi)
   sc = ev.last_scope
-  ok = False
-  allv = [x for v_ in sc.vars.values() for x in walk(v_)] + list(walk(r))
-  why = 'no guarded running product found'
-  if True:
-    for x in allv:
-      if x.op == 'ite' and x.args[0].op == 'cmp':
-        oc = cmp_oriented(x.args[0], lambda t: t.op == 'sym' and t.args[-1] == 'max_dim')
-        if oc is None:
-          continue
-        o, a, b = oc
-        if o in ('<=', '>') and a.op == 'bin' and a.args[0] == '*':
-          merged = x.args[1] if o == '<=' else x.args[2]
-          if merged is a or (merged.op == 'bin' and merged.args[0] == '*' and {merged.args[1], merged.args[2]} == {a.args[1], a.args[2]}):
-            ok = True
-  ctx.ob('C06.S6', fi.short, 'merge only under product*d <= max_dim', ok,
-         f'dimensions may be merged only when the merged size stays within max_dim; got `{why}`', ctx.loc(fi),
-         sample='if product * d <= max_dim: product *= d')
+  # Every value that can flow into the result is 1, an input dimension, an earlier stored value (induction over the
+  # loop), or a product that was tested `<= max_dim` on the very path that stores it.
+  cmpr = Comparer()
+  md = sym('param', fi.short, 'max_dim')
+  dim = ev.elem_of(sym('param', fi.short, 'shape_to_merge'))
+  bad, unknown = [], []
+  seen = set()
+
+  def tested(p, facts):
+    for pos, c in facts:
+      c = strip_casts(c)
+      if c.op == 'un' and c.args[0] == 'not':
+        c, pos = c.args[1], not pos
+      oc = cmp_oriented(c, lambda t_: t_ is md) if c.op == 'cmp' else None
+      if oc is None:
+        continue
+      o, a_, _ = oc              # a_ <o> max_dim
+      if ((pos and o in ('<=', '<')) or ((not pos) and o in ('>', '>='))) and cmpr.same(a_, p):
+        return True
+    return False
+
+  def flow(t, facts):
+    key = (t, tuple(facts))
+    if key in seen:
+      return
+    seen.add(key)
+    t0 = strip_casts(t)
+    if t0.op == 'const' or t0 is dim or t0.op in ('phi', 'loopacc', 'unbound'):
+      return
+    if t0.op in ('list', 'tuple', 'oneof'):
+      for e in t0.args:
+        flow(e, facts)
+      return
+    if t0.op == 'star':
+      f2 = list(facts)
+      d_ = t0.args[1]
+      while d_.op == 'guarded':
+        f2.append((True, d_.args[0]))
+        d_ = d_.args[1] if len(d_.args) > 1 else NONE
+      if d_.op == 'loopdom' and len(d_.args) > 2:
+        f2.extend((True, g_) for g_ in d_.args[2])
+      if d_.op == 'compdom':
+        for g_ in d_.args[1:]:
+          f2.append((True, g_))
+        flow(d_.args[0], facts)          # a comprehension over a list: its elements flow through
+      flow(t0.args[0], f2)
+      return
+    if t0.op == 'ite':
+      flow(t0.args[1], facts + [(True, t0.args[0])])
+      flow(t0.args[2], facts + [(False, t0.args[0])])
+      return
+    if t0.op == 'store':
+      flow(t0.args[0], facts)
+      flow(t0.args[2], facts)
+      return
+    if t0.op in ('elem', 'sub'):
+      if t0.op == 'elem' and t0.args[0] is sym('param', fi.short, 'shape_to_merge'):
+        return
+      flow(t0.args[0], facts)
+      return
+    if t0.op == 'loop':
+      flow(t0.args[2], facts)
+      flow(t0.args[3], facts)
+      return
+    if t0.op == 'bin' and t0.args[0] == '*':
+      if not tested(t0, facts):
+        bad.append(t0)
+      return
+    unknown.append(t0)
+  res0 = r
+  while res0.op == 'ite' and not any(e.op == 'star' for e in walk(res0.args[1])):
+    res0 = res0.args[2]                  # the all-ones special case returns [1]
+  flow(res0, [])
+  if unknown:
+    raise AnalysisError(f'merge_small_dims: value flowing into the result not understood: `{show(unknown[0], maxdepth=4)[:120]}`')
+  ctx.ob('C06.S6', fi.short, 'merge only under product*d <= max_dim', not bad,
+         f'dimensions may be merged only when the merged size stays within max_dim: the product `{show(bad[0], maxdepth=4)[:120] if bad else ""}` '
+         'reaches the result on a path that did not test it against max_dim', ctx.loc(fi), sample='if product * d <= max_dim: product *= d')
   res = r
   while res.op == 'ite':        # the all-ones special case returns [1]
     res = res.args[2] if any(e.op == 'star' for e in walk(res.args[2])) else res.args[1]
@@ -773,8 +834,9 @@ def reshaper(ctx):
     ok = inner.op == 'sub' and inner.args[0].op == 'sym' and inner.args[0].args[-1] == 'update'
     if ok:
       idx = inner.args[1]
-      txt = show(idx, maxdepth=8)
-      ok = "builtin('slice')(0" in txt and 'merged_shape' in txt
+      # every index is a slice starting at 0 (canonical: no lower bound) and ending at the merged dimension
+      sl = [x for x in walk(idx) if x.op == 'slice']
+      ok = bool(sl) and all(is_const(x.args[0], None) and is_const(x.args[2], None) and 'merged_shape' in show(x.args[1], maxdepth=5) for x in sl)
   ctx.ob('C06.S2', fun.short, 'unmerge: slice [0:m] then reshape to the original shape', ok,
          f'_unmerge must take update[0:m, ...] for the merged dims and reshape to original_shape; got `{show(r, maxdepth=6)[:200]}`', ctx.loc(fun),
          sample='update[tuple(slice(0, m) ...)].reshape(original)')
